@@ -59,3 +59,45 @@ def printChain (t : Tree) : List Char :=
   t.flatMap (printLine (colWidth (t.map cell1)) (colWidth (t.map cell2)))
 
 end P.PegF
+
+namespace P.PegF
+/-! ### decidable well-formedness (the domain of the round-trip theorem)
+
+`WFTree`: at least one statement; the final statement is unnamed, every other name is an
+identifier; identifiers in expressions are identifiers; an identifier that is printed in
+`ShiftExpr` position (statement level, operand of `+`, inside parentheses — i.e. anywhere except
+directly under a shift or a double) is not `dbl` followed by `1`, a letter or `_` (F10: `dblx`
+re-parses as `2*x`); operand indices satisfy `0 ≤ i < 2^63` (F8); shift counts are `< 2^64`. -/
+
+def validIdentB : List Char → Bool
+  | c :: cs => P.Peg.isIdStart c && cs.all P.Peg.isIdChar
+  | [] => false
+
+/-- not (`dbl` followed by `1`, a letter or `_`) -/
+def safeIdentB : List Char → Bool
+  | 'd' :: 'b' :: 'l' :: c :: _ => !(c == '1' || P.Peg.isIdStart c)
+  | _ => true
+
+/-- `sa`: the expression is printed in `ShiftExpr` position (stand-alone) -/
+def wfExprG (idxOK : Int → Bool) (safe : List Char → Bool) : Bool → Expr → Bool
+  | _, .operand i => idxOK i
+  | sa, .ident s => validIdentB s && (!sa || safe s)
+  | _, .add x y => wfExprG idxOK safe true x && wfExprG idxOK safe true y
+  | _, .shift x s => wfExprG idxOK safe false x && decide (s < 2 ^ 64)
+  | _, .double x => wfExprG idxOK safe false x
+
+def idxB (i : Int) : Bool := decide (0 ≤ i) && decide (i < 2 ^ 63)
+def idxIntB (i : Int) : Bool := decide (-(2 ^ 63) ≤ i) && decide (i < 2 ^ 63)
+
+def wfTreeG (idxOK : Int → Bool) (safe : List Char → Bool) : Tree → Bool
+  | [] => false
+  | [st] => st.name.isEmpty && wfExprG idxOK safe true st.e
+  | st :: r => validIdentB st.name && wfExprG idxOK safe true st.e && wfTreeG idxOK safe r
+
+def wfTreeB (t : Tree) : Bool := wfTreeG idxB safeIdentB t
+/-- the tree violates only the index-range condition (F8) -/
+def f8Only (t : Tree) : Bool := !wfTreeB t && wfTreeG idxIntB safeIdentB t
+/-- the tree violates only the stand-alone-identifier condition (F10) -/
+def f10Only (t : Tree) : Bool := !wfTreeB t && wfTreeG idxB (fun _ => true) t
+
+end P.PegF
